@@ -2040,6 +2040,11 @@ class C17(PropertyCheck):
                 else:
                     draws_cmp = draws
                 for d in draws_cmp:
+                    if c["two"] and c["mfx"] and d == 0.0:
+                        # the same tie seen from the other side: this ordering of the subjects within the groups
+                        # makes the estimated group difference exactly 0 (sign 0, statistic 0.0) while the
+                        # ordering the reference uses leaves a rounding-sized difference of either sign
+                        continue
                     k = np.searchsorted(pool, d)
                     near = min(abs(pool[min(k, len(pool) - 1)] - d), abs(pool[max(k - 1, 0)] - d))
                     if near > 1e-7 * max(1.0, abs(d)) and not exact_tie:
